@@ -21,10 +21,47 @@ from .. import finite as FD
 VALUES = [1, 2, 4, 8, 16, 32]
 
 
+def _writes_reads(st):
+    """(names written, names read) by one top-level statement, compound
+    statements included: a name is written by a binding anywhere inside the
+    statement (assignment, loop target, `with ... as`), by a store through a
+    subscript of it, or by an in-place list method called on it; `self.x`
+    attributes are tracked by their source text."""
+    writes, reads = set(), set()
+
+    def base(t):
+        while isinstance(t, (ast.Subscript, ast.Starred)):
+            t = t.value
+        return t
+
+    for x in ast.walk(st):
+        if isinstance(x, ast.Name):
+            (reads if isinstance(x.ctx, ast.Load) else writes).add(x.id)
+        elif isinstance(x, ast.Attribute) and src(x).startswith('self.'):
+            (reads if isinstance(x.ctx, ast.Load) else writes).add(src(x))
+        if isinstance(x, ast.Subscript) and not isinstance(x.ctx, ast.Load):
+            b = base(x)
+            if isinstance(b, ast.Name):
+                writes.add(b.id)
+            elif isinstance(b, ast.Attribute):
+                writes.add(src(b))
+        if isinstance(x, ast.Call) and isinstance(x.func, ast.Attribute) \
+                and x.func.attr in FD.LIST_MUTATORS:
+            b = base(x.func.value)
+            if isinstance(b, ast.Name):
+                writes.add(b.id)
+            elif isinstance(b, ast.Attribute):
+                writes.add(src(b))
+    return writes, reads
+
+
 def _slice_for(fn, targets):
     """Top-level statements of fn (in order) needed to compute the attribute
-    targets: the stores themselves plus earlier assignments to the locals
-    they read (transitively)."""
+    targets: the stores themselves plus every earlier statement -- plain
+    assignment, loop, conditional, in-place method call -- that writes a
+    local or attribute they read (transitively).  The kept statements are
+    executed by the finite-domain evaluator, so a form it does not model is
+    an analysis error, never a silent skip."""
     body = [st for st in fn.body if not (
         isinstance(st, ast.Expr) and isinstance(st.value, ast.Constant))]
     need = set()
@@ -38,24 +75,14 @@ def _slice_for(fn, targets):
         return None
     for k in range(last, -1, -1):
         st = body[k]
-        if not isinstance(st, (ast.Assign, ast.AugAssign)):
+        if isinstance(st, (ast.FunctionDef, ast.AsyncFunctionDef,
+                           ast.ClassDef, ast.Import, ast.ImportFrom,
+                           ast.Pass, ast.Global, ast.Nonlocal)):
             continue
-        tg = st.targets if isinstance(st, ast.Assign) else [st.target]
-        names = set()
-        for t in tg:
-            for x in ast.walk(t):
-                if isinstance(x, ast.Name):
-                    names.add(x.id)
-            if isinstance(t, ast.Attribute):
-                names.add(src(t))
-        if any(src(t) in targets for t in tg) or names & need:
+        writes, reads = _writes_reads(st)
+        if writes & set(targets) or writes & need:
             keep.append(st)
-            for x in ast.walk(st.value):
-                if isinstance(x, ast.Name):
-                    need.add(x.id)
-                if isinstance(x, ast.Attribute) and src(x).startswith(
-                        'self.'):
-                    need.add(src(x))
+            need |= reads
     return list(reversed(keep))
 
 
